@@ -315,6 +315,16 @@ def rule_k6(ctx, F, parts=("rank", "slots", "final", "side", "init")):
                       what="the scanner advances the column without assigning exactly one square key per square",
                       expected="one past_hashes[..] assignment per column advanced", found="advance by %s, %d slot write(s) in scope" % (amount, len(writes_here)))
     if "slots" in parts:
+        # the square a character of the board field stands for is (row, col) of the scan - in that order
+        sw = []
+        for c_, _ in hir.walk(body):
+            if c_.get("k") == "Call" and (hir.callee_of(c_) or "").startswith("chess::position::Position::new") and len(c_.get("args") or []) == 2:
+                a0, a1 = sym(c_["args"][0]), sym(c_["args"][1])
+                if {a0, a1} == {("var", "row"), ("var", "col")} and (a0, a1) != (("var", "row"), ("var", "col")):
+                    sw.append(hir.line(c_))
+        ctx.check("C04.K6", "scan-squares-are-(row,col)", not sw, fn=fn["path"], file=fn["file"], line=sw[0] if sw else None,
+                  what="the importer builds a square of the scan as (col, row): pieces / empty-square keys land on the transposed square",
+                  expected="Position::new(row, col)", found=sw)
         ctx.floor("C04.K6", "column advances", n_adv, 2)
         empties_hashed(ctx, F)
     # final completeness test
@@ -352,6 +362,26 @@ def rule_k6(ctx, F, parts=("rank", "slots", "final", "side", "init")):
                                         init = hir.sym_int(iv[2][1])
                         else:
                             init = hir.sym_int(hir.fold(hir.resolve_consts(sym(f_["e"]), F), {}))
+        # ... and keys are only ever folded in with xor (the combination the published layout is defined by): any other compound
+        # assignment to the hash - in the importer's accumulator or in Game.hash anywhere - is not a key combination
+        nonxor = []
+        for path_ in sorted(F.fns):
+            f_ = F.fns[path_]
+            if not (f_.get("hir") and path_.startswith("chess::") and f_["kind"] != "Closure"):
+                continue
+            sym_ = hir.Sym(hir.Env(f_["hir"], F), F)
+            for n, _ in hir.walk(f_["hir"]["body"]):
+                if n.get("k") == "AssignOp":
+                    l0 = hir.strip(n["l"])
+                    tgt = hir.fmt(sym_(n["l"]), 60)
+                    is_hash = tgt == "self.hash" or (path_ == fn["path"] and l0.get("k") == "Path" and l0["to"].get("res") == "local"
+                                                       and init is not None and l0["to"].get("name") == "hash")
+                    if is_hash and n.get("op") != "^=":
+                        nonxor.append((path_, n.get("op"), hir.line(n)))
+        ctx.check("C04.K6", "hash-only-changed-by-xor", not nonxor, fn=nonxor[0][0] if nonxor else fn["path"], file=fn["file"],
+                  line=nonxor[0][2] if nonxor else None,
+                  what="the hash is updated with an operator other than `^=`: the value is no longer the xor-combination of the position's keys "
+                       "(and an update can no longer be undone by repeating it)", expected="^=", found=nonxor)
         ctx.check("C04.K6", "hash-accumulator-starts-at-zero", init == 0, fn=fn["path"], file=fn["file"],
                   what="the importer folds the keys of the position into an accumulator that does not start at 0: every hash is off by a "
                        "constant from the combination of the published keys", expected=0, found=init)
